@@ -50,12 +50,12 @@ Next == /\ phase = 0 /\ phase' = 1 /\ di' = di
 \* ---- laws on the reference
 D == DocSeq[di]
 \* del(s1, s2) deletes the union of what s1 and s2 select in the ORIGINAL document, in either order
-UnionLaw == \A x \in DOMAIN Small : \A y \in DOMAIN Small :
+UnionLaw == phase = 1 => \A x \in DOMAIN Small : \A y \in DOMAIN Small :
    LET r1 == Run(EDelete(EUnion(Small[x], Small[y])), D)  r2 == Run(EDelete(EUnion(Small[y], Small[x])), D) IN
    r1.st # "ok" \/ r2.st # "ok" \/ r1.doc = r2.doc
 \* precisely the selection disappears: every position outside the selection (and not below it) survives with its value,
 \* and the survivors of every container keep their relative order
-ExactLaw == \A si \in DOMAIN Sels :
+ExactLaw == phase = 1 => \A si \in DOMAIN Sels :
    LET sel == Ev(Sels[si], RO(St(D, <<InDoc(<<>>)>>, TRUE)))
        r == Run(EDelete(Sels[si]), D) IN
    sel.st # "ok" \/ r.st # "ok" \/
